@@ -3,6 +3,105 @@ import HapVerif.Drv.Common
 namespace HapVerif.C02
 open HapVerif.Drv
 
-def handle (_args : List String) (_impl : String) : Verdict := bad "C02-not-implemented"
+def unq (s : String) : String := if s = "_" then "" else s
+def q (s : String) : String := if s = "" then "_" else s
+
+def parseEP (s : String) : Option EP :=
+  match s.splitOn "~" with
+  | [n, ip, port, en, w, ck, lb, rf, pu] => do
+    pure { name := unq n, ip := unq ip, port := ← port.toNat?, enabled := en = "E", weight := ← w.toInt?,
+           cookie := unq ck, label := unq lb, tref := unq rf, puid := ← pu.toNat? }
+  | _ => none
+
+def showEP (e : EP) : String :=
+  "~".intercalate [q e.name, q e.ip, toString e.port, if e.enabled then "E" else "D", toString e.weight,
+    q e.cookie, q e.label, q e.tref, toString e.puid]
+
+def showEPs (l : List EP) : String := if l.isEmpty then "-" else ",".intercalate (l.map showEP)
+
+def respOf (c : Char) : String :=
+  match c with
+  | 'o' => ""
+  | 'i' => "IP changed from '10.0.0.1' to '10.0.0.2', no need to change port"
+  | 'n' => "no need to change the addr"
+  | 'x' => "No such server."
+  | 's' => " IP changed from '10.0.0.1'"
+  | 'u' => "ip changed from '10.0.0.1'"
+  | _ => "?"
+
+def parseResp (s : String) : Option Resp :=
+  if s = "E" then some .err else some (.msgs (s.toList.map respOf))
+
+def showCmd : Cmd → String
+  | .disable n => "D!" ++ n
+  | .enable n ip p w => "E!" ++ n ++ "!" ++ ip ++ "!" ++ toString p ++ "!" ++ toString w ++ "!" ++ (if w > 0 then "ready" else "drain")
+
+def showCmds (l : List Cmd) : String := if l.isEmpty then "-" else ",".intercalate (l.map showCmd)
+
+def parseCmd (s : String) : Option Cmd :=
+  match s.splitOn "!" with
+  | ["D", n] => some (.disable n)
+  | ["E", n, ip, p, w, st] => do
+    let w ← w.toInt?
+    -- the state token must be the one the weight implies, otherwise it is not a command of the model
+    if st = (if w > 0 then "ready" else "drain") then pure (.enable n ip (← p.toNat?) w) else none
+  | _ => none
+
+structure Flags where
+  dyn : Bool := true
+  res : Bool := false
+  pres : Bool := false
+  same : Bool := true
+  minfree : Nat := 0
+  block : Nat := 1
+  iw : Int := 1
+
+def parseFlags (s : String) : Option Flags :=
+  (s.splitOn ",").foldlM (fun (f : Flags) kv =>
+    match kv.splitOn "=" with
+    | ["dyn", v] => some { f with dyn := v = "1" }
+    | ["res", v] => some { f with res := v = "1" }
+    | ["pres", v] => some { f with pres := v = "1" }
+    | ["same", v] => some { f with same := v = "1" }
+    | ["minfree", v] => v.toNat?.map fun n => { f with minfree := n }
+    | ["block", v] => v.toNat?.map fun n => { f with block := n }
+    | ["iw", v] => v.toInt?.map fun n => { f with iw := n }
+    | _ => none) {}
+
+/-- the whole `dynUpdater.update()` for a single changed backend: pair check, then `alignSlots`
+when a reload is needed -/
+def updateOne (f : Flags) (old cur : List EP) (script : List Resp) : Outcome :=
+  let ob : Back := { eps := old, dynUpdate := f.dyn, resolver := f.res, cookiePreserve := f.pres, initialWeight := f.iw }
+  let cb : Back := { ob with eps := cur }
+  let o := checkBackendPair ob cb f.same script
+  if o.panic || o.updated then o
+  else { o with cur := (alignSlots { cb with eps := o.cur } f.minfree f.block).eps }
+
+/-- `pair <flags> <old> <cur> <script>`; impl: `<0|1> <cmds> <cur'>` or `PANIC` -/
+def handle (args : List String) (impl : String) : Verdict :=
+  match args with
+  | ["pair", fl, olds, curs, sc] =>
+    match parseFlags fl, parseList parseEP olds, parseList parseEP curs, parseList parseResp sc with
+    | some f, some old, some cur, some script =>
+      let m := updateOne f old cur script
+      let mtxt := if m.panic then "PANIC" else
+        (if m.updated then "1" else "0") ++ " " ++ showCmds m.cmds ++ " " ++ showEPs m.cur
+      let ob : Back := { eps := old, dynUpdate := f.dyn, resolver := f.res, cookiePreserve := f.pres, initialWeight := f.iw }
+      -- oracle on the implementation's outcome
+      let io : Option Outcome :=
+        if impl = "PANIC" then some ⟨false, [], [], true⟩ else
+        match impl.splitOn " " with
+        | [u, cs, eps] => do
+          pure ⟨u = "1", ← parseList parseEP eps, ← parseList parseCmd cs, false⟩
+        | _ => none
+      match io with
+      | none => { model := mtxt, agree := false, oracle := some "unparsable-implementation-output" }
+      | some o =>
+        -- responses consumed by the implementation = first |cmds| entries of the script
+        let used := script.take o.cmds.length
+        { model := mtxt, agree := mtxt = impl, oracle := oracle ob (used.all (·.ok)) o,
+          trivial := o.cmds.isEmpty }
+    | _, _, _, _ => bad "parse"
+  | _ => bad "C02"
 
 end HapVerif.C02
